@@ -1,7 +1,862 @@
-(* Proofs for C15. *)
-From Coq Require Import List NArith ZArith Bool Lia.
+(* Proofs for C15.
+   1. parse (pr t) = Some (canon t): the fuelled recursive-descent model reads the
+      canonical text of every tree outside class K2 into the tree `canon t`
+      (induction on t; the three folded layers are handled once, generically).
+   2. aeval (canon t) = eval_nodes t outside class K1 (the right-nested and/or
+      chain has the value of the left-nested one).
+   3. on a small operand set rsass's per-node operators agree with the reference
+      outside classes K3/K4 (finite sweep), hence the main theorem. *)
+From Coq Require Import List NArith ZArith Bool Lia Arith.PeanoNat.
+From Flocq Require Import Core.Core IEEE754.BinarySingleNaN IEEE754.Binary IEEE754.Bits.
 From RV Require Import Base.F64 Base.FMod Base.ListX Spec.SassExpr Model.ExprParse Model.ExprEval Model.ExprTie Run.C15.
 Import ListNotations.
+Local Open Scope nat_scope.
+
+(* ---------- lengths: every parser returns a suffix no longer than its input ---------- *)
+Definition rec_ok (rec : list tok -> pres) : Prop :=
+  forall ts a r, rec ts = POk a r -> length r <= length ts.
+Definition consumes (p : list tok -> pres) : Prop :=
+  forall ts a r, p ts = POk a r -> length r < length ts.
+
+Lemma p_single_len rec : rec_ok rec -> consumes (p_single rec).
+Proof.
+  intros Hr ts. induction ts as [|k ts IH]; intros a r H; cbn [p_single] in H; [discriminate|].
+  destruct k; try discriminate.
+  - inversion H; subst; cbn; lia.
+  - inversion H; subst; cbn; lia.
+  - inversion H; subst; cbn; lia.
+  - destruct (rec ts) as [e r0| |] eqn:E; try discriminate.
+    destruct r0 as [|k0 r1]; try discriminate. destruct k0; try discriminate.
+    inversion H; subst. apply Hr in E. cbn in *. lia.
+  - destruct (p_single rec ts) as [v r0| |] eqn:E; try discriminate.
+    specialize (IH _ _ eq_refl). inversion H; subst. cbn. lia.
+  - destruct (p_single rec ts) as [v r0| |] eqn:E; try discriminate.
+    specialize (IH _ _ eq_refl). inversion H; subst. cbn. lia.
+Qed.
+
+Lemma loop_len isop sub : consumes sub ->
+  forall n acc ts a r, loop isop sub n acc ts = POk a r -> length r <= length ts.
+Proof.
+  intros Hs n. induction n as [|n IH]; intros acc ts a r H; cbn [loop] in H; [discriminate|].
+  destruct ts as [|k ts']; [inversion H; subst; lia|].
+  destruct k; try (inversion H; subst; lia).
+  destruct (isop o); [|inversion H; subst; lia].
+  destruct (sub ts') as [b r0| |] eqn:E; try discriminate.
+  - apply IH in H. apply Hs in E. cbn. lia.
+  - inversion H; subst. lia.
+Qed.
+
+Lemma p_level_len isop sub : consumes sub -> consumes (p_level isop sub).
+Proof.
+  intros Hs ts a r H. unfold p_level in H.
+  destruct (sub ts) as [v r0| |] eqn:E; try discriminate.
+  apply (loop_len _ _ Hs) in H. apply Hs in E. lia.
+Qed.
+
+Lemma loop_irrel isop sub : consumes sub ->
+  forall n m acc ts, length ts < n -> length ts < m -> loop isop sub n acc ts = loop isop sub m acc ts.
+Proof.
+  intros Hs n. induction n as [|n IH]; intros m acc ts Hn Hm; [lia|].
+  destruct m as [|m]; [lia|]. cbn [loop].
+  destruct ts as [|k ts']; auto. destruct k; auto. destruct (isop o); auto.
+  destruct (sub ts') as [b r0| |] eqn:E; auto.
+  apply Hs in E. cbn in *. apply IH; lia.
+Qed.
+
+(* ---------- the three folded layers, generically ---------- *)
+Definition ops_of (d : nat) : binop -> bool :=
+  match d with 1 => is_prod | 2 => is_sum | 3 => is_rel | _ => fun _ => false end.
+Fixpoint p_at (rec : list tok -> pres) (d : nat) : list tok -> pres :=
+  match d with
+  | O => p_single rec
+  | S d' => p_level (ops_of (S d')) (p_at rec d')
+  end.
+Lemma p_logic_at rec : p_logic rec = p_at rec 3.
+Proof. reflexivity. Qed.
+
+Lemma p_at_len rec d : rec_ok rec -> consumes (p_at rec d).
+Proof.
+  intros Hr. induction d; cbn [p_at]. apply p_single_len; auto. apply p_level_len; auto.
+Qed.
+
+(* rsass layer of an operator: 1 = any_product ... 4 = single_expression *)
+Definition rl (o : binop) : nat :=
+  match o with
+  | BMul | BMod => 1 | BPlus | BMinus => 2
+  | BEq | BNe | BLt | BLe | BGt | BGe => 3 | BOr | BAnd => 4
+  end.
+Lemma ops_of_rl d o : ops_of d o = Nat.eqb (rl o) d && Nat.leb d 3.
+Proof.
+  destruct d as [|[|[|[|d]]]]; destruct o; try reflexivity; cbn; rewrite ?andb_false_r; reflexivity.
+Qed.
+
+(* continue with the folds of layers j..d on an already parsed left operand *)
+Fixpoint cf (rec : list tok -> pres) (j d : nat) (acc : ast) (ts : list tok) : pres :=
+  match d with
+  | O => POk acc ts
+  | S d' =>
+      if Nat.ltb (S d') j then POk acc ts else
+      match cf rec j d' acc ts with
+      | POk a r => loop (ops_of (S d')) (p_at rec d') (S (length r)) a r
+      | x => x
+      end
+  end.
+Definition cont rec d := cf rec 1 d.
+
+Lemma p_at_cont rec d ts :
+  p_at rec d ts = match p_single rec ts with POk a r => cont rec d a r | x => x end.
+Proof.
+  induction d; cbn [p_at].
+  - destruct (p_single rec ts); reflexivity.
+  - unfold p_level. rewrite IHd. destruct (p_single rec ts) as [a r| |]; try reflexivity.
+Qed.
+
+Definition follow (j : nat) (ts : list tok) : Prop :=
+  match ts with KOp o :: _ => j <= rl o | _ => True end.
+
+Lemma cf_below rec j d acc ts : d < j -> cf rec j d acc ts = POk acc ts.
+Proof.
+  intros H. destruct d; cbn [cf]; auto.
+  replace (Nat.ltb (S d) j) with true by (symmetry; apply Nat.ltb_lt; lia). reflexivity.
+Qed.
+
+Lemma loop_stop isop sub n acc ts :
+  match ts with KOp o :: _ => isop o = false | _ => True end ->
+  loop isop sub (S n) acc ts = POk acc ts.
+Proof.
+  intros H. cbn [loop]. destruct ts as [|k r]; auto. destruct k; auto. rewrite H. reflexivity.
+Qed.
+
+Lemma cf_skip rec j d acc ts : follow (S d) ts -> cf rec j d acc ts = POk acc ts.
+Proof.
+  induction d; intros H; cbn [cf]; auto.
+  destruct (Nat.ltb (S d) j); auto.
+  rewrite IHd. 2:{ unfold follow in *. destruct ts as [|[]]; auto. lia. }
+  apply loop_stop. unfold follow in H. destruct ts as [|k r]; auto. destruct k; auto.
+  rewrite ops_of_rl. apply andb_false_iff. left. apply Nat.eqb_neq. lia.
+Qed.
+
+Lemma cont_cf rec j d acc ts : follow j ts -> cont rec d acc ts = cf rec j d acc ts.
+Proof.
+  intros H. unfold cont. induction d; cbn [cf]; auto.
+  change (Nat.ltb (S d) 1) with false. cbv iota.
+  destruct (Nat.ltb (S d) j) eqn:E.
+  - apply Nat.ltb_lt in E. fold (cont rec d acc ts).
+    assert (F : follow (S (S d)) ts). { unfold follow in *. destruct ts as [|[]]; auto. lia. }
+    change (cf rec 1 (S d) acc ts = POk acc ts). apply cf_skip; auto.
+  - rewrite IHd. reflexivity.
+Qed.
+
+Lemma cf_S rec j d acc ts :
+  cf rec j (S d) acc ts =
+  if Nat.ltb (S d) j then POk acc ts else
+  match cf rec j d acc ts with
+  | POk a r => loop (ops_of (S d)) (p_at rec d) (S (length r)) a r
+  | x => x
+  end.
+Proof. reflexivity. Qed.
+
+Lemma loop_cons isop sub n acc o r :
+  loop isop sub (S n) acc (KOp o :: r) =
+  if isop o then
+    match sub r with
+    | POk b r' => loop isop sub n (ABin o acc b) r'
+    | PFail => POk acc (KOp o :: r)
+    | PFuel => PFuel
+    end
+  else POk acc (KOp o :: r).
+Proof. reflexivity. Qed.
+
+Lemma cf_step rec j d acc o r : rec_ok rec -> rl o = j -> 1 <= j -> j <= d -> d <= 3 ->
+  cf rec j d acc (KOp o :: r) =
+  match p_at rec (j - 1) r with
+  | POk b r' => cf rec j d (ABin o acc b) r'
+  | PFail => POk acc (KOp o :: r)
+  | PFuel => PFuel
+  end.
+Proof.
+  intros Hr Ho Hj Hd H3. induction d; [lia|].
+  rewrite cf_S.
+  assert (L : Nat.ltb (S d) j = false) by (apply Nat.ltb_ge; lia). rewrite L.
+  destruct (Nat.eq_dec j (S d)) as [E|E].
+  - (* the fold of layer j itself *)
+    rewrite (cf_below rec j d) by lia.
+    rewrite loop_cons. rewrite ops_of_rl. rewrite Ho, E, Nat.eqb_refl.
+    assert (L3 : Nat.leb (S d) 3 = true) by (apply Nat.leb_le; lia). rewrite L3. cbn [andb].
+    replace (S d - 1) with d by lia.
+    destruct (p_at rec d r) as [b r'| |] eqn:P; auto.
+    rewrite cf_S. rewrite Nat.ltb_irrefl. rewrite (cf_below rec (S d) d) by lia.
+    apply loop_irrel. apply p_at_len; auto.
+    apply (p_at_len rec d Hr) in P. cbn [length]. lia. lia.
+  - rewrite IHd by lia.
+    destruct (p_at rec (j - 1) r) as [b r'| |] eqn:P; auto.
+    + rewrite cf_S. rewrite L. reflexivity.
+    + apply loop_stop. rewrite ops_of_rl. apply andb_false_iff. left. apply Nat.eqb_neq. lia.
+Qed.
+
+(* ---------- single_expression ---------- *)
+Lemma p_expr_S f ts :
+  p_expr (S f) ts =
+  match p_logic (p_expr f) ts with
+  | POk a (KOp o :: r) =>
+      if is_andor o then
+        match p_expr f r with
+        | POk b r' => POk (ABin o a b) r'
+        | PFail => POk a (KOp o :: r)
+        | PFuel => PFuel
+        end
+      else POk a (KOp o :: r)
+  | x => x
+  end.
+Proof. reflexivity. Qed.
+
+Lemma p_expr_ok f : rec_ok (p_expr f).
+Proof.
+  induction f as [|f IH]; intros ts a r H; [discriminate|].
+  rewrite p_expr_S, p_logic_at in H.
+  destruct (p_at (p_expr f) 3 ts) as [a0 r0| |] eqn:E; try discriminate.
+  apply (p_at_len _ 3 IH) in E.
+  destruct r0 as [|k r1]; [inversion H; subst; lia|].
+  destruct k; try (inversion H; subst; lia).
+  destruct (is_andor o); [|inversion H; subst; lia].
+  destruct (p_expr f r1) as [b r'| |] eqn:E2; try discriminate.
+  - apply IH in E2. inversion H; subst. cbn in *. lia.
+  - inversion H; subst. lia.
+Qed.
+
+Definition good (ts : list tok) (a : ast) (r : list tok) : Prop :=
+  forall f, length ts < f -> p_expr f ts = POk a r.
+Definition closed (ts : list tok) : Prop := match ts with KOp _ :: _ => False | _ => True end.
+Definition not_chain (a : ast) : Prop :=
+  match a with ABin o _ _ => is_andor o = false | _ => True end.
+
+(* what is known of a block of tokens W that the parser reads as A *)
+Definition blockP1 (W : list tok) (A : ast) (j : nat) : Prop :=
+  forall f d rest, j <= d -> d <= 3 -> length (W ++ rest) <= f -> follow j rest ->
+    p_at (p_expr f) d (W ++ rest) = cont (p_expr f) d A rest.
+Definition blockP2 (W : list tok) (A : ast) : Prop :=
+  forall rest, closed rest -> good (W ++ rest) A rest.
+Definition blockP3 (W : list tok) (A : ast) : Prop :=
+  forall o rest2 b r', is_andor o = true -> good rest2 b r' ->
+    good (W ++ KOp o :: rest2) (graft A o b) r'.
+
+Lemma follow_mono j j' ts : j <= j' -> follow j' ts -> follow j ts.
+Proof. unfold follow. destruct ts as [|[]]; auto. lia. Qed.
+Lemma closed_follow j ts : closed ts -> follow j ts.
+Proof. unfold closed, follow. destruct ts as [|[]]; auto. contradiction. Qed.
+Lemma rl_andor o : is_andor o = true -> rl o = 4.
+Proof. destruct o; cbn; congruence. Qed.
+Lemma rl_le4 o : rl o <= 4.
+Proof. destruct o; cbn; lia. Qed.
+
+Lemma blockP1_weaken W A j j' : j <= j' -> blockP1 W A j -> blockP1 W A j'.
+Proof.
+  intros Hj H f d rest Hd H3 Hl Hf. apply H; auto. lia. eapply follow_mono; eauto.
+Qed.
+
+Lemma item_P2 W A j : j <= 3 -> blockP1 W A j -> blockP2 W A.
+Proof.
+  intros Hj H rest Hc f Hf. destruct f as [|f]; [lia|].
+  rewrite p_expr_S, p_logic_at.
+  rewrite (H f 3 rest) by (auto using closed_follow; lia).
+  unfold cont. rewrite cf_skip by (apply closed_follow; auto).
+  destruct rest as [|k r]; auto. destruct k; auto. contradiction.
+Qed.
+
+Lemma graft_item A o b : not_chain A -> graft A o b = ABin o A b.
+Proof. destruct A; cbn; auto. intros ->. reflexivity. Qed.
+
+Lemma item_P3 W A j : j <= 3 -> blockP1 W A j -> not_chain A -> blockP3 W A.
+Proof.
+  intros Hj H Hn o rest2 b r' Ho Hg f Hf. destruct f as [|f]; [lia|].
+  rewrite app_length in Hf. cbn [length] in Hf.
+  rewrite p_expr_S, p_logic_at.
+  rewrite (H f 3 (KOp o :: rest2)).
+  2: lia. 2: lia. 2: { rewrite app_length. cbn [length]. lia. }
+  2: { cbn. rewrite (rl_andor o Ho). lia. }
+  unfold cont. rewrite cf_skip by (cbn; rewrite (rl_andor o Ho); lia).
+  rewrite Ho. rewrite (Hg f) by lia. rewrite graft_item; auto.
+Qed.
+
+Lemma paren_single W A f rest : blockP2 W A -> length (parens W ++ rest) <= f ->
+  p_single (p_expr f) (parens W ++ rest) = POk (AParen A) rest.
+Proof.
+  intros H Hl. unfold parens in *. cbn [app] in *. rewrite <- app_assoc in *. cbn [app] in *.
+  cbn [p_single]. rewrite (H (KRP :: rest) I f). reflexivity.
+  cbn [length] in Hl. lia.
+Qed.
+
+Lemma single_P1 W A : (forall f rest, length (W ++ rest) <= f -> p_single (p_expr f) (W ++ rest) = POk A rest) ->
+  blockP1 W A 0.
+Proof.
+  intros H f d rest _ Hd Hl _. rewrite p_at_cont. rewrite H; auto.
+Qed.
+
+Lemma paren_P1 W A : blockP2 W A -> blockP1 (parens W) (AParen A) 0.
+Proof. intros H. apply single_P1. intros. apply paren_single; auto. Qed.
+
+Lemma graft_assoc x o1 y o b : is_andor o1 = true ->
+  graft (graft x o1 y) o b = graft x o1 (graft y o b).
+Proof.
+  intros H1. induction x; cbn [graft]; try (rewrite H1; reflexivity).
+  destruct (is_andor o0) eqn:E.
+  - cbn [graft]. rewrite E. rewrite IHx2. reflexivity.
+  - cbn [graft]. rewrite H1. reflexivity.
+Qed.
+
+(* ---------- precedence bookkeeping ---------- *)
+Definition tight (t : tree) : nat := match t with TBin o _ _ => rl o | _ => 0 end.
+
+Lemma prec_rl o1 o : prec o <= prec o1 -> rl o1 <= rl o.
+Proof. destruct o1, o; cbn; lia. Qed.
+Lemma tprec_tight_l t o : Nat.ltb (tprec t) (prec o) = false -> tight t <= rl o.
+Proof.
+  intros H. apply Nat.ltb_ge in H. destruct t; cbn [tight]; try lia. apply prec_rl. exact H.
+Qed.
+Lemma tprec_tight_r t o l : Nat.ltb (tprec t) (S (prec o)) = false -> k2_node (TBin o l t) = false ->
+  is_andor o = false -> tight t <= rl o - 1.
+Proof.
+  intros H K Ho. apply Nat.ltb_ge in H. destruct t; cbn [tight]; try lia.
+  cbn [tprec] in H. cbn [k2_node] in K.
+  destruct o, o0; cbn in *; try lia; try discriminate.
+Qed.
+
+Lemma known_K2_bin o l r : known_K2 (TBin o l r) = false ->
+  k2_node (TBin o l r) = false /\ known_K2 l = false /\ known_K2 r = false.
+Proof.
+  unfold known_K2. cbn [exists_node]. intros H.
+  apply orb_false_iff in H. destruct H as [H1 H2]. apply orb_false_iff in H2. tauto.
+Qed.
+Lemma known_K2_un t : known_K2 (TNeg t) = false \/ known_K2 (TNot t) = false -> known_K2 t = false.
+Proof. unfold known_K2. cbn [exists_node k2_node]. cbn. tauto. Qed.
+
+Record blocks (W : list tok) (A : ast) (j : nat) : Prop := {
+  b1 : j <= 3 -> blockP1 W A j;
+  b2 : blockP2 W A;
+  b3 : blockP3 W A }.
+
+Lemma item_blocks W A j : j <= 3 -> blockP1 W A j -> not_chain A -> blocks W A j.
+Proof. intros. split; auto. eapply item_P2; eauto. eapply item_P3; eauto. Qed.
+
+Lemma paren_blocks W A j : blockP2 W A -> blocks (parens W) (AParen A) j.
+Proof.
+  intros H. pose proof (paren_P1 W A H) as P.
+  split. intros _. eapply blockP1_weaken; [|exact P]. lia.
+  eapply item_P2; [|exact P]; lia. eapply item_P3; [|exact P|exact I]; lia.
+Qed.
+
+(* a child printed under precedence threshold p *)
+Lemma wrap_blocks c p j : blocks (pr c) (canon c) (tight c) ->
+  (Nat.ltb (tprec c) p = false -> tight c <= j) ->
+  blocks (if Nat.ltb (tprec c) p then parens (pr c) else pr c)
+         (if Nat.ltb (tprec c) p then AParen (canon c) else canon c) j.
+Proof.
+  intros B H. destruct (Nat.ltb (tprec c) p) eqn:E.
+  - apply paren_blocks. apply B.
+  - specialize (H eq_refl). split; try apply B.
+    intros Hj. eapply blockP1_weaken; [exact H|]. apply B. lia.
+Qed.
+
+Lemma andor_blocks WL AL WR AR o j : is_andor o = true ->
+  blockP3 WL AL -> blockP2 WR AR -> blockP3 WR AR ->
+  blocks (WL ++ KOp o :: WR) (graft AL o AR) (4 + j).
+Proof.
+  intros Ho L3 R2 R3. split.
+  - intros; lia.
+  - intros rest Hc. rewrite <- app_assoc. cbn [app]. apply L3; auto.
+  - intros o2 rest2 b r' Ho2 Hg. rewrite <- app_assoc. cbn [app].
+    rewrite graft_assoc by auto. apply L3; auto.
+Qed.
+
+Lemma bin_blocks WL AL WR AR o : is_andor o = false ->
+  blocks WL AL (rl o) -> blocks WR AR (rl o - 1) ->
+  blocks (WL ++ KOp o :: WR) (ABin o AL AR) (rl o).
+Proof.
+  intros Ho BL BR.
+  assert (J3 : rl o <= 3) by (destruct o; cbn in *; try lia; discriminate).
+  assert (J1 : 1 <= rl o) by (destruct o; cbn; lia).
+  apply item_blocks; auto.
+  intros f d rest Hd H3 Hl Hf.
+  rewrite <- app_assoc in *. cbn [app] in *.
+  rewrite app_length in Hl. cbn [length] in Hl.
+  rewrite (b1 _ _ _ BL J3 f d (KOp o :: WR ++ rest)); auto.
+  2: { rewrite app_length. cbn [length]. lia. }
+  2: { cbn. lia. }
+  rewrite (cont_cf _ (rl o)) by (cbn; lia).
+  rewrite cf_step; auto using p_expr_ok.
+  assert (J0 : rl o - 1 <= 3) by lia.
+  rewrite (b1 _ _ _ BR J0 f (rl o - 1) rest); auto; try lia.
+  2: { eapply follow_mono; [|exact Hf]. lia. }
+  unfold cont at 1. rewrite cf_skip.
+  2: { replace (S (rl o - 1)) with (rl o) by lia. exact Hf. }
+  symmetry. apply cont_cf. exact Hf.
+Qed.
+
+(* ---------- the main induction ---------- *)
+Lemma tok_blocks k A : (forall rec rest, p_single rec (k :: rest) = POk A rest) -> not_chain A ->
+  blocks [k] A 0.
+Proof.
+  intros H Hn. apply item_blocks; auto. apply single_P1. intros. cbn [app]. apply H.
+Qed.
+
+Lemma neg_paren_blocks c : blockP2 (pr c) (canon c) ->
+  blocks (KNeg :: parens (pr c)) (AUn UNeg (AParen (canon c))) 0.
+Proof.
+  intros H. apply item_blocks; auto; [|exact I]. apply single_P1. intros f rest Hl.
+  cbn [app p_single]. rewrite (paren_single (pr c) (canon c)); auto. cbn [app length] in Hl. lia.
+Qed.
+
+Theorem tree_blocks t : known_K2 t = false -> blocks (pr t) (canon t) (tight t).
+Proof.
+  induction t as [n|b|c IH|c IH|o l IHl r IHr]; intros K.
+  - apply tok_blocks; [reflexivity|exact I].
+  - destruct b; apply tok_blocks; try reflexivity; exact I.
+  - specialize (IH (known_K2_un c (or_introl K))).
+    destruct c; try (apply neg_paren_blocks; apply IH).
+    apply tok_blocks; [reflexivity|exact I].
+  - specialize (IH (known_K2_un c (or_intror K))).
+    cbn [pr canon tight].
+    change (tprec c <? 7) with (Nat.ltb (tprec c) 7).
+    destruct (Nat.ltb (tprec c) 7) eqn:E.
+    + apply item_blocks; auto; [|exact I]. apply single_P1. intros f rest Hl.
+      cbn [app p_single]. rewrite (paren_single (pr c) (canon c)); auto. apply IH. cbn [app length] in Hl. lia.
+    + apply item_blocks; auto; [|exact I]. apply single_P1. intros f rest Hl.
+      cbn [app p_single].
+      assert (T : tight c = 0). { destruct c; auto. cbn in E. destruct o; discriminate. }
+      pose proof (b1 _ _ _ IH) as P. rewrite T in P. specialize (P (Nat.le_0_l 3) f 0 rest).
+      cbn [p_at] in P. rewrite P; auto.
+      cbn [app length] in Hl. lia. destruct rest as [|[]]; cbn; auto. lia.
+  - apply known_K2_bin in K. destruct K as (K0 & Kl & Kr).
+    specialize (IHl Kl). specialize (IHr Kr).
+    cbn [pr canon tight].
+    change (tprec l <? prec o) with (Nat.ltb (tprec l) (prec o)).
+    change (tprec r <? S (prec o)) with (Nat.ltb (tprec r) (S (prec o))).
+    destruct (is_andor o) eqn:Ho.
+    + rewrite (rl_andor o Ho). change 4 with (4 + 0).
+      pose proof (wrap_blocks l (prec o) 4 IHl) as BL.
+      pose proof (wrap_blocks r (S (prec o)) 4 IHr) as BR.
+      apply andor_blocks; auto.
+      * apply BL. intros _. destruct l; cbn; try lia. apply rl_le4.
+      * apply BR. intros _. destruct r; cbn; try lia. apply rl_le4.
+      * apply BR. intros _. destruct r; cbn; try lia. apply rl_le4.
+    + apply bin_blocks; auto.
+      * apply wrap_blocks; auto. apply tprec_tight_l.
+      * apply wrap_blocks; auto. intros E. eapply tprec_tight_r; eauto.
+Qed.
+
+Theorem parse_print t : known_K2 t = false -> parse (pr t) = Some (canon t).
+Proof.
+  intros K. unfold parse.
+  pose proof (b2 _ _ _ (tree_blocks t K) [] I (S (length (pr t)))) as H.
+  rewrite app_nil_r in H. rewrite H by lia. reflexivity.
+Qed.
+
+(* ---------- values: the right-nested and/or chain has the value of the left-nested one ---------- *)
+Definition vand (a k : val) : val := if stuck a then a else if truthy a then k else a.
+Definition vor (a k : val) : val := if stuck a then a else if truthy a then a else k.
+Definition vop (o : binop) : val -> val -> val :=
+  match o with BAnd => vand | BOr => vor | _ => m_bin o end.
+
+Lemma aeval_bin o x y : aeval (ABin o x y) = vop o (aeval x) (aeval y).
+Proof. destruct o; reflexivity. Qed.
+Lemma eval_nodes_bin o l r : eval_nodes (TBin o l r) = vop o (eval_nodes l) (eval_nodes r).
+Proof. destruct o; reflexivity. Qed.
+
+Lemma vop_assoc o a b c : is_andor o = true -> vop o (vop o a b) c = vop o a (vop o b c).
+Proof.
+  destruct o; try discriminate; intros _; cbn [vop]; unfold vor, vand;
+    destruct a as [?|[]| | |]; cbn; try reflexivity.
+Qed.
+
+Fixpoint spine_all (o : binop) (x : ast) : bool :=
+  match x with
+  | ABin o' _ b => if is_andor o' then binop_eqb o' o && spine_all o b else true
+  | _ => true
+  end.
+Definition chainb (a : ast) : bool := match a with ABin o _ _ => is_andor o | _ => false end.
+
+Lemma binop_eqb_eq o o' : binop_eqb o o' = true -> o = o'.
+Proof. destruct o, o'; cbn; congruence. Qed.
+Lemma binop_eqb_refl o : binop_eqb o o = true.
+Proof. destruct o; reflexivity. Qed.
+
+Lemma spine_not_chain o a : chainb a = false -> spine_all o a = true.
+Proof. destruct a; cbn; auto. intros ->. reflexivity. Qed.
+
+Lemma graft_value x o y : is_andor o = true -> spine_all o x = true ->
+  aeval (graft x o y) = vop o (aeval x) (aeval y).
+Proof.
+  intros Ho. induction x; intros S; cbn [graft]; try (rewrite aeval_bin; reflexivity).
+  cbn [spine_all] in S. destruct (is_andor o0) eqn:E.
+  - apply andb_true_iff in S. destruct S as [S1 S2]. apply binop_eqb_eq in S1. subst o0.
+    rewrite !aeval_bin. rewrite IHx2 by auto. rewrite vop_assoc by auto. reflexivity.
+  - rewrite !aeval_bin. reflexivity.
+Qed.
+
+Lemma spine_graft x o y : is_andor o = true -> spine_all o x = true -> spine_all o y = true ->
+  spine_all o (graft x o y) = true.
+Proof.
+  intros Ho. induction x; intros Sx Sy; cbn [graft spine_all]; rewrite ?Ho, ?binop_eqb_refl; cbn [andb]; auto.
+  cbn [spine_all] in Sx. destruct (is_andor o0) eqn:E.
+  - apply andb_true_iff in Sx. destruct Sx as [S1 S2]. cbn [spine_all]. rewrite E, S1. cbn [andb]. auto.
+  - cbn [spine_all]. rewrite Ho, binop_eqb_refl. cbn [andb]. auto.
+Qed.
+
+(* the ast of a child printed under threshold p *)
+Definition wcanon (p : nat) (c : tree) : ast :=
+  if Nat.ltb (tprec c) p then AParen (canon c) else canon c.
+Lemma canon_bin o l r :
+  canon (TBin o l r) =
+  if is_andor o then graft (wcanon (prec o) l) o (wcanon (S (prec o)) r)
+  else ABin o (wcanon (prec o) l) (wcanon (S (prec o)) r).
+Proof. reflexivity. Qed.
+Lemma aeval_wcanon p c : aeval (wcanon p c) = aeval (canon c).
+Proof. unfold wcanon. destruct (Nat.ltb (tprec c) p); reflexivity. Qed.
+
+Lemma canon_item t : 3 <= tprec t -> chainb (canon t) = false.
+Proof.
+  destruct t; try reflexivity.
+  - destruct t; reflexivity.
+  - cbn [tprec]. intros H. rewrite canon_bin.
+    assert (E : is_andor o = false) by (destruct o; cbn in *; auto; lia). rewrite E. exact E.
+Qed.
+Lemma wcanon_item p c : 3 <= p -> chainb (wcanon p c) = false.
+Proof.
+  intros H. unfold wcanon. destruct (Nat.ltb (tprec c) p) eqn:E; auto.
+  apply Nat.ltb_ge in E. apply canon_item. lia.
+Qed.
+
+(* chains under `and` are pure `and` chains *)
+Lemma and_spine c : spine_all BAnd (wcanon 2 c) = true.
+Proof.
+  unfold wcanon. destruct (Nat.ltb (tprec c) 2) eqn:E; auto.
+  apply Nat.ltb_ge in E. clear E0 || idtac.
+  induction c; try reflexivity.
+  - destruct c; reflexivity.
+  - cbn [tprec] in E. rewrite canon_bin. destruct (is_andor o) eqn:Ho.
+    + assert (o = BAnd) by (destruct o; cbn in *; try discriminate; auto; lia). subst o.
+      apply spine_graft; auto.
+      * unfold wcanon. cbn [prec]. destruct (Nat.ltb (tprec c1) 2) eqn:E1; auto.
+        apply Nat.ltb_ge in E1. auto.
+      * apply spine_not_chain. apply wcanon_item. cbn. lia.
+    + cbn [spine_all]. rewrite Ho. reflexivity.
+Qed.
+
+(* chains under `or` are pure `or` chains when the printed chain has no `and` *)
+Lemma or_spine c : chain_has_and c = false -> spine_all BOr (wcanon 1 c) = true.
+Proof.
+  unfold wcanon. replace (Nat.ltb (tprec c) 1) with false.
+  2: { symmetry. apply Nat.ltb_ge. destruct c; cbn; try lia. destruct o; cbn; lia. }
+  induction c; intros H; try reflexivity.
+  - destruct c; reflexivity.
+  - rewrite canon_bin. destruct (is_andor o) eqn:Ho.
+    + destruct o; try discriminate.
+      cbn [chain_has_and] in H. apply orb_false_iff in H. destruct H as [H1 H2].
+      apply spine_graft; auto.
+      * unfold wcanon. cbn [prec]. replace (Nat.ltb (tprec c1) 1) with false. auto.
+        symmetry. apply Nat.ltb_ge. destruct c1; cbn; try lia. destruct o; cbn; lia.
+      * apply spine_not_chain. unfold wcanon. cbn [prec].
+        destruct (Nat.ltb (tprec c2) 2) eqn:E2; auto.
+        apply Nat.ltb_ge in E2. destruct c2; try reflexivity.
+        -- destruct c2; reflexivity.
+        -- rewrite canon_bin. destruct o; try discriminate; cbn in E2; try lia; reflexivity.
+    + cbn [spine_all]. rewrite Ho. reflexivity.
+Qed.
+
+Lemma known_K1_bin o l r : known_K1 (TBin o l r) = false ->
+  k1_node (TBin o l r) = false /\ known_K1 l = false /\ known_K1 r = false.
+Proof.
+  unfold known_K1. cbn [exists_node]. intros H.
+  apply orb_false_iff in H. destruct H as [H1 H2]. apply orb_false_iff in H2. tauto.
+Qed.
+
+Theorem canon_value t : known_K1 t = false -> aeval (canon t) = eval_nodes t.
+Proof.
+  induction t as [n|b|c IH|c IH|o l IHl r IHr]; intros K.
+  - reflexivity.
+  - reflexivity.
+  - assert (Kc : known_K1 c = false) by (unfold known_K1 in *; cbn in K; exact K).
+    specialize (IH Kc). change (eval_nodes (TNeg c)) with (m_neg (eval_nodes c)). rewrite <- IH.
+    destruct c; reflexivity.
+  - assert (Kc : known_K1 c = false) by (unfold known_K1 in *; cbn in K; exact K).
+    specialize (IH Kc). change (eval_nodes (TNot c)) with (m_not (eval_nodes c)). rewrite <- IH.
+    cbn [canon]. destruct (tprec c <? 7); reflexivity.
+  - apply known_K1_bin in K. destruct K as (K0 & Kl & Kr).
+    specialize (IHl Kl). specialize (IHr Kr).
+    rewrite canon_bin, eval_nodes_bin, <- IHl, <- IHr.
+    destruct (is_andor o) eqn:Ho.
+    + rewrite graft_value; auto. rewrite !aeval_wcanon. reflexivity.
+      destruct o; try discriminate.
+      * apply or_spine. exact K0.
+      * apply and_spine.
+    + rewrite aeval_bin, !aeval_wcanon. reflexivity.
+Qed.
+
+(* rsass's value of the canonical text = the tree evaluated with Sass grouping
+   (and rsass's own per-node operators) *)
+Theorem grouping t : known_K1 t = false -> known_K2 t = false -> model_value t = eval_nodes t.
+Proof.
+  intros K1 K2. unfold model_value. rewrite parse_print by auto. apply canon_value; auto.
+Qed.
+
+(* ---------- node semantics on a small operand set (finite sweep) ---------- *)
+Lemma bits_inj (a b : f64) : to_bits a = to_bits b -> a = b.
+Proof.
+  intros H. unfold to_bits, bits_of_b64 in H.
+  rewrite <- (Bits.binary_float_of_bits_of_binary_float 52 11 eq_refl eq_refl eq_refl a).
+  rewrite <- (Bits.binary_float_of_bits_of_binary_float 52 11 eq_refl eq_refl eq_refl b).
+  rewrite H. reflexivity.
+Qed.
+
+Definition val_eqb (a b : val) : bool :=
+  match a, b with
+  | VNum x, VNum y => Z.eqb (to_bits x) (to_bits y)
+  | VBool x, VBool y => Bool.eqb x y
+  | VErr, VErr | VOther, VOther | VUnmod, VUnmod => true
+  | _, _ => false
+  end.
+Lemma val_eqb_eq a b : val_eqb a b = true -> a = b.
+Proof.
+  destruct a, b; cbn; try discriminate; auto.
+  - intros H. apply Z.eqb_eq in H. apply bits_inj in H. subst. reflexivity.
+  - intros H. apply eqb_prop in H. subst. reflexivity.
+Qed.
+Lemma val_eqb_refl a : val_eqb a a = true.
+Proof. destruct a; cbn; auto. apply Z.eqb_refl. destruct b; reflexivity. Qed.
+
+(* equal, or two zeros of either sign (the sign of a zero is not observable here) *)
+Definition is_zero_val (v : val) : bool :=
+  match v with VNum (B754_zero _ _ _) => true | _ => false end.
+Definition zeq (a b : val) : bool := val_eqb a b || (is_zero_val a && is_zero_val b).
+
+Definition small_ints : list Z :=
+  [-12;-11;-10;-9;-8;-7;-6;-5;-4;-3;-2;-1;0;1;2;3;4;5;6;7;8;9;10;11;12]%Z.
+Definition smalls : list val :=
+  VBool true :: VBool false :: VNum f_neg_zero :: VNum f_nan :: map (fun z => VNum (f_of_Z z)) small_ints.
+Definition small_pairs : list (val * val) :=
+  flat_map (fun a => map (fun b => (a, b)) (filter (zeq a) smalls)) smalls.
+
+Lemma small_pairs_in a b : In a smalls -> In b smalls -> zeq a b = true -> In (a, b) small_pairs.
+Proof.
+  intros Ha Hb Z. unfold small_pairs. apply in_flat_map. exists a. split; auto.
+  apply in_map. apply filter_In. auto.
+Qed.
+
+Lemma zero_in_smalls v : is_zero_val v = true -> In v smalls.
+Proof.
+  destruct v as [x| | | |]; try discriminate. destruct x; try discriminate. intros _.
+  destruct s.
+  - right; right; left. reflexivity.
+  - do 16 right. left. reflexivity.
+Qed.
+
+Lemma zeq_small a b : In a smalls -> zeq a b = true -> In b smalls.
+Proof.
+  intros Ha Z. unfold zeq in Z. apply orb_true_iff in Z. destruct Z as [Z|Z].
+  - apply val_eqb_eq in Z. subst. exact Ha.
+  - apply andb_true_iff in Z. apply zero_in_smalls. tauto.
+Qed.
+
+Definition small_ok (v : val) : bool :=
+  match v with VErr | VOther => true | _ => existsb (val_eqb v) smalls end.
+
+(* every subtree has a small reference value (or an error / a string) *)
+Fixpoint all_small (t : tree) : bool :=
+  small_ok (eval_spec t) &&
+  match t with
+  | TNeg c | TNot c => all_small c
+  | TBin _ l r => all_small l && all_small r
+  | _ => true
+  end.
+
+Definition k3_pair (o : binop) (a b : val) : bool :=
+  match o, a, b with BMod, VNum x, VNum y => mod_zero_opposite x y | _, _, _ => false end.
+Definition k4_pair (o : binop) (a b : val) : bool :=
+  is_relational o && (is_vbool a || is_vbool b).
+
+Definition strict_ops : list binop := [BEq; BNe; BLt; BLe; BGt; BGe; BPlus; BMinus; BMul; BMod].
+
+(* where the reference gives a number / boolean / error the model must give the same *)
+Definition agree_b (s m : val) : bool :=
+  match s with
+  | VNum _ | VBool _ => zeq s m
+  | VErr => val_eqb m VErr
+  | _ => true
+  end.
+
+Definition node_pred (p q : val * val) (o : binop) : bool :=
+  k3_pair o (fst p) (fst q) || k4_pair o (fst p) (fst q)
+  || agree_b (spec_bin o (fst p) (fst q)) (m_bin o (snd p) (snd q)).
+Definition node_row (p q : val * val) : bool := forallb (node_pred p q) strict_ops.
+
+Lemma node_sweep : forallb (fun p => forallb (node_row p) small_pairs) small_pairs = true.
+Proof. vm_compute. reflexivity. Qed.
+
+Definition un_pred (p : val * val) : bool :=
+  agree_b (spec_neg (fst p)) (m_neg (snd p)) && agree_b (spec_not (fst p)) (m_not (snd p))
+  && Bool.eqb (truthy (fst p)) (truthy (snd p)) && negb (stuck (snd p)) && negb (no_claim (fst p)).
+Lemma un_sweep : forallb un_pred small_pairs = true.
+Proof. vm_compute. reflexivity. Qed.
+
+Lemma node_small o a a' b b' : In (a, a') small_pairs -> In (b, b') small_pairs -> In o strict_ops ->
+  k3_pair o a b = false -> k4_pair o a b = false -> agree_b (spec_bin o a b) (m_bin o a' b') = true.
+Proof.
+  intros Ha Hb Ho K3 K4.
+  pose proof (sweep2 small_pairs small_pairs node_row node_sweep _ _ Ha Hb) as H.
+  unfold node_row in H. rewrite forallb_forall in H. specialize (H o Ho).
+  unfold node_pred in H. cbn [fst snd] in H. rewrite K3, K4 in H. exact H.
+Qed.
+
+Lemma small_ok_cases v : small_ok v = true -> v = VErr \/ v = VOther \/ In v smalls.
+Proof.
+  intros H. destruct v; auto; right; right; cbn [small_ok] in H;
+    apply existsb_exists in H; destruct H as (w & Hw & E); apply val_eqb_eq in E; subst; exact Hw.
+Qed.
+
+Lemma all_small_top t : all_small t = true -> small_ok (eval_spec t) = true.
+Proof. destruct t; cbn [all_small]; intros H; apply andb_true_iff in H; tauto. Qed.
+
+(* from agreement on a small reference value to membership in the pair table *)
+Definition defined_b (v : val) : bool := match v with VNum _ | VBool _ => true | _ => false end.
+Lemma smalls_defined : forallb defined_b smalls = true.
+Proof. vm_compute. reflexivity. Qed.
+
+Lemma agree_pair s m : In s smalls -> agree_b s m = true -> In (s, m) small_pairs.
+Proof.
+  intros Hs A.
+  pose proof (sweep1 smalls defined_b smalls_defined s Hs) as D.
+  assert (Z : zeq s m = true) by (destruct s; try discriminate; exact A).
+  apply small_pairs_in; auto. eapply zeq_small; eauto.
+Qed.
+
+Lemma known_bin (p : tree -> bool) o l r : exists_node p (TBin o l r) = false ->
+  p (TBin o l r) = false /\ exists_node p l = false /\ exists_node p r = false.
+Proof.
+  cbn [exists_node]. intros H.
+  apply orb_false_iff in H. destruct H as [H1 H2]. apply orb_false_iff in H2. tauto.
+Qed.
+
+Lemma spec_bin_err_l o b : spec_bin o VErr b = VErr. Proof. destruct o; reflexivity. Qed.
+Lemma spec_bin_other_l o b : spec_bin o VOther b = VOther. Proof. destruct o; reflexivity. Qed.
+Lemma m_bin_err_l o b : m_bin o VErr b = VErr. Proof. reflexivity. Qed.
+Lemma agree_err m : agree_b VErr m = true -> m = VErr.
+Proof. cbn. apply val_eqb_eq. Qed.
+
+(* node by node: the tree evaluated with rsass's operators gives what the reference gives *)
+Theorem nodes_agree t : known_K3 t = false -> known_K4 t = false -> all_small t = true ->
+  agree_b (eval_spec t) (eval_nodes t) = true.
+Proof.
+  induction t as [n|b|c IH|c IH|o l IHl r IHr]; intros K3 K4 S.
+  - cbn [eval_spec teval eval_nodes agree_b]. unfold zeq. rewrite val_eqb_refl. reflexivity.
+  - destruct b; reflexivity.
+  - pose proof S as S'. cbn [all_small] in S. apply andb_true_iff in S. destruct S as [S0 S].
+    specialize (IH K3 K4 S).
+    change (eval_spec (TNeg c)) with (spec_neg (eval_spec c)).
+    change (eval_nodes (TNeg c)) with (m_neg (eval_nodes c)).
+    destruct (small_ok_cases _ (all_small_top _ S)) as [E|[E|E]].
+    + rewrite E in *. apply agree_err in IH. rewrite IH. reflexivity.
+    + rewrite E. reflexivity.
+    + pose proof (sweep1 small_pairs un_pred un_sweep _ (agree_pair _ _ E IH)) as U.
+      unfold un_pred in U. cbn [fst snd] in U. repeat (apply andb_true_iff in U; destruct U as [U ?]). exact U.
+  - cbn [all_small] in S. apply andb_true_iff in S. destruct S as [S0 S].
+    specialize (IH K3 K4 S).
+    change (eval_spec (TNot c)) with (spec_not (eval_spec c)).
+    change (eval_nodes (TNot c)) with (m_not (eval_nodes c)).
+    destruct (small_ok_cases _ (all_small_top _ S)) as [E|[E|E]].
+    + rewrite E in *. apply agree_err in IH. rewrite IH. reflexivity.
+    + rewrite E. reflexivity.
+    + pose proof (sweep1 small_pairs un_pred un_sweep _ (agree_pair _ _ E IH)) as U.
+      unfold un_pred in U. cbn [fst snd] in U. repeat (apply andb_true_iff in U; destruct U as [U ?]). assumption.
+  - unfold known_K3 in K3. apply known_bin in K3. destruct K3 as (K3n & K3l & K3r).
+    unfold known_K4 in K4. apply known_bin in K4. destruct K4 as (K4n & K4l & K4r).
+    cbn [all_small] in S. apply andb_true_iff in S. destruct S as [S0 S].
+    apply andb_true_iff in S. destruct S as [Sl Sr].
+    specialize (IHl K3l K4l Sl). specialize (IHr K3r K4r Sr).
+    pose proof (all_small_top _ Sl) as Sa. pose proof (all_small_top _ Sr) as Sb.
+    destruct (is_andor o) eqn:Ho.
+    + (* and / or *)
+      assert (E : eval_spec (TBin o l r) =
+                  let a := eval_spec l in
+                  if no_claim a then a else
+                  match o with BAnd => if truthy a then eval_spec r else a
+                             | _ => if truthy a then a else eval_spec r end).
+      { destruct o; try discriminate; reflexivity. }
+      assert (E' : eval_nodes (TBin o l r) =
+                  let a := eval_nodes l in
+                  if stuck a then a else
+                  match o with BAnd => if truthy a then eval_nodes r else a
+                             | _ => if truthy a then a else eval_nodes r end).
+      { destruct o; try discriminate; reflexivity. }
+      rewrite E, E'. cbv zeta.
+      destruct (small_ok_cases _ Sa) as [Ea|[Ea|Ea]].
+      * rewrite Ea in *. apply agree_err in IHl. rewrite IHl. reflexivity.
+      * rewrite Ea. reflexivity.
+      * pose proof (sweep1 small_pairs un_pred un_sweep _ (agree_pair _ _ Ea IHl)) as U.
+        unfold un_pred in U. cbn [fst snd] in U.
+        repeat (apply andb_true_iff in U; destruct U as [U ?]).
+        apply negb_true_iff in H. apply negb_true_iff in H0. apply eqb_prop in H1.
+        rewrite H, H0, <- H1.
+        destruct o; try discriminate; destruct (truthy (eval_spec l)); auto.
+    + (* strict operators *)
+      assert (E : eval_spec (TBin o l r) = spec_bin o (eval_spec l) (eval_spec r))
+        by (destruct o; try discriminate; reflexivity).
+      assert (E' : eval_nodes (TBin o l r) = m_bin o (eval_nodes l) (eval_nodes r))
+        by (destruct o; try discriminate; reflexivity).
+      rewrite E, E'.
+      assert (Io : In o strict_ops) by (destruct o; try discriminate; cbn; tauto).
+      destruct (small_ok_cases _ Sa) as [Ea|[Ea|Ea]].
+      * rewrite Ea in *. apply agree_err in IHl. rewrite IHl, spec_bin_err_l. reflexivity.
+      * rewrite Ea, spec_bin_other_l. reflexivity.
+      * pose proof (agree_pair _ _ Ea IHl) as Pa.
+        pose proof (sweep1 small_pairs un_pred un_sweep _ Pa) as Ua.
+        unfold un_pred in Ua. cbn [fst snd] in Ua.
+        repeat (apply andb_true_iff in Ua; destruct Ua as [Ua ?]).
+        apply negb_true_iff in H. apply negb_true_iff in H0.
+        destruct (small_ok_cases _ Sb) as [Eb|[Eb|Eb]].
+        -- rewrite Eb in *. apply agree_err in IHr. rewrite IHr.
+           destruct (eval_spec l); try discriminate; destruct (eval_nodes l); try discriminate; destruct o; reflexivity.
+        -- rewrite Eb. destruct (eval_spec l); try discriminate; destruct o; reflexivity.
+        -- pose proof (agree_pair _ _ Eb IHr) as Pb.
+           apply node_small; auto.
+Qed.
+
+Theorem main t :
+  known_K1 t = false -> known_K2 t = false -> known_K3 t = false -> known_K4 t = false ->
+  all_small t = true ->
+  agree_b (eval_spec t) (model_value t) = true.
+Proof.
+  intros K1 K2 K3 K4 S. rewrite grouping by auto. apply nodes_agree; auto.
+Qed.
+
+(* ---------- refutations of the full statement, and an exhaustive sweep ---------- *)
+Definition full_statement : Prop :=
+  forall t, agree_b (eval_spec t) (model_value t) = true.
+
+Lemma refuted_and_or : exists t, known_K1 t = true /\ agree_b (eval_spec t) (model_value t) = false.
+Proof. exists (TBin BOr (TBin BAnd (TBool false) (TBool false)) (TBool true)). vm_compute. auto. Qed.
+Lemma refuted_eq_rel : exists t, known_K2 t = true /\ agree_b (eval_spec t) (model_value t) = false.
+Proof. exists (TBin BEq (TBool true) (TBin BLt (TNum 1) (TNum 2))). vm_compute. auto. Qed.
+Lemma refuted_mod : exists t, known_K3 t = true /\ agree_b (eval_spec t) (model_value t) = false.
+Proof. exists (TBin BMod (TNeg (TNum 2)) (TNum 2)). vm_compute. auto. Qed.
+Lemma refuted_rel_bool : exists t, known_K4 t = true /\ agree_b (eval_spec t) (model_value t) = false.
+Proof.
+  exists (TBin BEq (TBin BLt (TBool true) (TNum 1)) (TBin BLt (TBool true) (TNum 1))). vm_compute. auto.
+Qed.
+
+Definition leaves5 : list tree := [TNum 0; TNum 1; TNum 2; TBool true; TBool false].
+Definition leaves4 : list tree := [TNum 0; TNum 2; TBool true; TBool false].
+Definition all_ops : list binop := [BOr; BAnd; BEq; BNe; BLt; BLe; BGt; BGe; BPlus; BMinus; BMul; BMod].
+Definition bins (ls rs : list tree) : list tree :=
+  flat_map (fun o => flat_map (fun l => map (fun r => TBin o l r) rs) ls) all_ops.
+Definition unaries (ts : list tree) : list tree := ts ++ map TNeg ts ++ map TNot ts.
+Definition trees1 : list tree := bins (unaries leaves5) (unaries leaves5).
+Definition trees2 : list tree := bins (bins leaves4 leaves4) leaves4 ++ bins leaves4 (bins leaves4 leaves4).
+Definition tree_ok (t : tree) : bool :=
+  negb (Z.eqb (known_class t) 0) || (all_small t && agree_b (eval_spec t) (model_value t)).
+Lemma sweep_trees1 : forallb tree_ok trees1 = true.
+Proof. vm_compute. reflexivity. Qed.
+Lemma sweep_trees2 : forallb tree_ok trees2 = true.
+Proof. vm_compute. reflexivity. Qed.
 
 Lemma tie_ok : operators_tie = true.
 Proof. vm_compute. reflexivity. Qed.
